@@ -21,7 +21,11 @@ RULE = (
     "loops and forward skips inserted "
     "1-20 times in one rewrite via AllBlocksScope or repeated insert_at: "
     "no two module symbols share a name, every copy's branch edges lead to "
-    "its own labels; (c) the C12 program generator with every valid "
+    "its own labels (one global name defined by every copy must raise "
+    "MultipleDefinitionsError from the second copy on); (r) one Assembler "
+    "object used for a second result after finalize(): names of the first "
+    "result are unknown again and may be defined again; "
+    "(c) the C12 program generator with every valid "
     "2-4-chunk split (no chunk refers to a label defined later, no split "
     "inside an explicit CFI procedure): canonical dump of the chunked "
     "Assembler.Result equals that of the whole text. non-trivial = the "
@@ -32,7 +36,7 @@ ASSUMPTIONS = [
 ]
 BUDGET = {"quick": (5000, 40), "thorough": (150000, 480)}
 REQUIRED_COUNTERS = ["undef_cases", "multidef_cases", "nfold_insertions",
-                     "chunk_comparisons"]
+                     "chunk_comparisons", "assembler_reuses"]
 
 
 def gen_case(rng, tier, index):
